@@ -290,10 +290,3 @@ Proof.
            first [ split; comp_differs (@qx NumR) | split; comp_differs (@qy NumR) | split; comp_differs (@qz NumR) ]|]).
   destruct Hu.
 Qed.
-
-(* the proper part of the monoclinic / orthorhombic list IS closed (the four-group), up to sign *)
-Lemma half_turn_quats :
-  @rotq NumR 2 1 1 = (0, 0, 1, 0) /\ @rotq NumR 1 1 1 = (0, 1, 0, 0) /\ @rotq NumR 0 1 1 = (1, 0, 0, 0).
-Proof.
-  unfold rotq; numR. replace (1 * PI / 1 / 2) with (PI / 2) by field. rewrite sin_PI2, cos_PI2. auto.
-Qed.
